@@ -46,6 +46,8 @@ up-to-date information on the status of remoting and actors
 pub mod auth;
 pub mod client;
 pub mod node_session;
+#[cfg(slawlor_ractor_verif)]
+pub mod verif;
 use std::cmp::Ordering;
 use std::collections::hash_map::Entry;
 use std::collections::{HashMap, HashSet};
